@@ -2,11 +2,13 @@ module verifh
 
 go 1.23
 
-require github.com/FollowTheProcess/spok v0.0.0
+require (
+	github.com/FollowTheProcess/spok v0.0.0
+	github.com/bmatcuk/doublestar/v4 v4.7.1
+)
 
 require (
 	github.com/FollowTheProcess/collections v0.10.0 // indirect
-	github.com/bmatcuk/doublestar/v4 v4.7.1 // indirect
 	github.com/fatih/color v1.18.0 // indirect
 	github.com/lithammer/fuzzysearch v1.1.8 // indirect
 	github.com/mattn/go-colorable v0.1.13 // indirect
